@@ -24,7 +24,7 @@ BUDGET_S = {"quick": 120, "thorough": 1200}
 RULE = ("every distinct (class, wire type, lower, upper, rounding mode, step) quantiser reachable from the templates, "
         "animation and mesh codecs x EVERY raw value of its wire type (exhaustive), laws: encode(decode(raw)) == raw, decode "
         "monotone, range ends (and zero where the instance rounds towards a zero midpoint) exact both ways; key-frame time "
-        "x a sweep of float32 durations (quick 24, thorough 400). distinct_nontrivial = distinct (instance, raw) pairs "
+        "x a sweep of float32 durations (quick 24, thorough 2000). distinct_nontrivial = distinct (instance, raw) pairs "
         "checked, counted per instance as the size of the raw domain")
 ASSUMPTIONS = [
     "the end-point law is applied to instances whose step is 1/(max-min); specially stepped ones (texture rotation, "
@@ -231,7 +231,7 @@ def run(ctx):
     items = sorted(found.items(), key=lambda kv: repr(kv[0]))
     ctx.flag("instances_found", [repr(k) for k, _ in items])
     rng = ctx.rng
-    n_dur = ctx.pick(24, 400)
+    n_dur = ctx.pick(24, 2000)
     durations = [f32(x) for x in (1.0, 0.5, 2.0, 10.0, 30.0, 60.0, 1 / 3, 0.1, 1e-3, 3.4e38, 1.17549435e-38, 65535.0, 7.0)]
     while len(durations) < n_dur:
         durations.append(f32(rng.choice([rng.uniform(0.01, 120.0), 10 ** rng.uniform(-6, 6), rng.uniform(0.5, 2.0)])))
